@@ -1154,6 +1154,16 @@ class FnRewriter:
                         out(toks[q].text, q)
                     j = ce + 1
                     continue
+            if (in_body and t.kind == 'punct' and t.text == '?' and self.unit.get('_try_convert')):
+                # R21 try-convert (item key "try_convert": "<ErrType>"): `E?` -> `E.q_into::<ErrType>()?`.
+                # `q_into` (declare the VERIFIED helper trait TryConvert in the overlay prelude) performs the
+                # From conversion that `?` implies; Verus models `?` itself without it, so the converted error
+                # would otherwise be unknown. The remaining `?` converts ErrType to itself.
+                self.log.append({'rule': 'R21', 'fn': self.fnkey, 'line': self.sf.line_of(t.start),
+                                 'what': '`?` -> `.q_into::<%s>()?`' % self.unit['_try_convert']})
+                out('.q_into::<%s>()?' % self.unit['_try_convert'], j)
+                j += 1
+                continue
             out(t.text, j)
             j += 1
 
@@ -2140,7 +2150,7 @@ def build(unit_dir, repo, canary=False):
                     if got != want:
                         raise Undecided('%s: `%s` occurs %d times in %s, the unit expects %d '
                                         '(the contracts were written for that many)' % (unit['name'], pat, got, fnkey, want))
-            rw = FnRewriter(sf, fn_item, fnkey, fov, dict(unit, _sig=lifted, _wrap=wrap, _clock=it.get('clock'), **{k: it[k] for k in ('rewrites', 'pathmap', 'mut_params') if k in it}), log)
+            rw = FnRewriter(sf, fn_item, fnkey, fov, dict(unit, _sig=lifted, _wrap=wrap, _clock=it.get('clock'), _try_convert=it.get('try_convert'), **{k: it[k] for k in ('rewrites', 'pathmap', 'mut_params') if k in it}), log)
             for a in it.get('attrs', []):
                 # attributes for an extracted fn (e.g. #[verifier::exec_allows_no_decreases_clause]); logged
                 pieces.append(Piece(a + '\n', ('gen', 'attr')))
